@@ -46,6 +46,32 @@ ALLOC_CALLS = [
 ]
 
 
+_DEREF_RX = re.compile(r"<[^()]*? as std::ops::Deref(?:Mut)?>::deref(?:_mut)?\(|(?<![\w:])(?:as_slice|as_mut_slice|as_bytes)\(")
+_INDEX_RX = re.compile(r"<[^()]*? as std::ops::Index(?:Mut)?<I>>::index(?:_mut)?\(")
+
+
+def strip_views(t):
+    """`deref(x)`, `as_slice(x)`, `as_bytes(x)` denote the bytes of x: drop the wrapper (balanced) so that indexing a Vec
+    directly and indexing the slice it derefs to give the same key."""
+    for _ in range(8):
+        m = _DEREF_RX.search(t)
+        if not m:
+            return t
+        i = m.end()
+        depth = 1
+        j = i
+        while j < len(t) and depth:
+            if t[j] == "(":
+                depth += 1
+            elif t[j] == ")":
+                depth -= 1
+            j += 1
+        if depth:
+            return t
+        t = t[:m.start()] + t[i:j - 1] + t[j:]
+    return t
+
+
 class Site:
     __slots__ = ("body", "fn", "kind", "term", "nterm", "bb", "idx", "ln", "status", "how", "detail", "_why")
 
@@ -56,7 +82,7 @@ class Site:
         self.term = term
         # borrow and deref markers are dropped from the key: `x.len()` inside a closure (captured by reference) and in
         # the enclosing function must give the same key
-        self.nterm = (nterm if nterm is not None else term).replace("&", "").replace("*", "")
+        self.nterm = _INDEX_RX.sub("index(", strip_views((nterm if nterm is not None else term).replace("&", "").replace("*", "")))
         self.bb = bb
         self.idx = idx
         self.ln = ln
@@ -331,6 +357,12 @@ def discharge(F, s):
                 S, used, ok = solver([a])
                 if rng and ok(a) and S.lower(a) > rng[0]:
                     return _auto(s, "abs of a value > MIN (>= %s)" % S.lower(a))
+            m = re.search(r"<impl (\w+)>::(div_ceil|div_euclid|rem_euclid)$", nm)
+            if m and len(t["args"]) == 2:
+                k = env.op_term(t["args"][1], site_pos)
+                # a constant divisor >= 1: no division by zero, no MIN / -1 (div_ceil of an unsigned value cannot overflow)
+                if k.base is None and k.off >= 1 and (m.group(2) != "div_ceil" or m.group(1).startswith("u")):
+                    return _auto(s, "%s by the constant %d" % (m.group(2), k.off))
             return False
         if kind == "call:radix":
             r = env.op_term(t["args"][-1], site_pos)
@@ -370,7 +402,25 @@ def discharge(F, s):
             argi = s.detail
             if argi is None or argi < 0 or argi >= len(t["args"]):
                 return False
-            sz = env.op_term(t["args"][argi], site_pos)
+            szo = t["args"][argi]
+            # a quotient is at most its dividend: `with_capacity(n.div_ceil(2))`, `n / 3`, `n >> 1` are bounded by what bounds n
+            for _ in range(3):
+                q = op_place(szo)
+                dq = b.single_def(q["l"]) if q is not None and not q["p"] and q["l"] not in b.names else None
+                if dq is None:
+                    break
+                if dq[2] == "call" and re.search(r"<impl u\w+>::div_ceil$", dq[3]["f"].get("fn") or "") and len(dq[3]["args"]) == 2:
+                    kk = env.op_term(dq[3]["args"][1], site_pos)
+                    if kk.base is None and kk.off >= 1:
+                        szo = dq[3]["args"][0]
+                        continue
+                if dq[2] == "rv" and dq[3]["k"] == "bin" and dq[3]["op"] in ("Div", "Shr") and b.lty(q["l"]).startswith("u"):
+                    kk = env.op_term(dq[3]["b"], site_pos)
+                    if kk.base is None and kk.off >= 1:
+                        szo = dq[3]["a"]
+                        continue
+                break
+            sz = env.op_term(szo, site_pos)
             S, used, ok = solver([sz])
             if not ok(sz):
                 return False
@@ -579,7 +629,10 @@ def inventory(ctx, F, scope, table, rule="R-INV", kinds=None):
         key, s, fallback = order[qi]
         qi += 1
         if not fallback:
-            rows = tab.get(key, [])
+            # rows reviewed for this very function first: two functions of one file may share a key, and a row consumed by
+            # the wrong one would be missing when its own function has moved to another file
+            root0 = s.fn.split("::{closure")[0]
+            rows = sorted(tab.get(key, []), key=lambda r: 0 if any(x.split("::{closure")[0] == root0 for x in r.get("in", [])) else 1)
         else:
             # (a) the same function, kind and term in another file (the function was moved); (b) same function, kind, outer shape
             root = s.fn.split("::{closure")[0]
